@@ -59,6 +59,51 @@ CHECKS = {
          "for every explored history with a durability point (successful flush/drop of f, f not modified afterwards) and every later cut: every prefix of the device writes, loss of everything after the last device flush (thorough: bounded subsets of unflushed writes) still yields f with exactly the flushed content",
          "whole-call write granularity (no torn sectors); device honours flush as a barrier",
          "DESIGN.md §4 C14"),
+ "C06": ("input-enumerator", "exploration",
+         "bounded-exhaustive enumeration of the format-option grid x threshold-adjacent sizes on the real crate (boot-sector hook + full format on a sparse device), independent geometry parser / decoder as oracle; thorough: every sector count of the 32-bit range for 4 option records",
+         "for every option record of the declared grid and every size of the size set: no panic; rejection only with InvalidInput; an accepted request yields a coherent geometry with the requested width / cluster size, a FAT that addresses every cluster, regions inside the declared size, and (full mode) an image that decodes clean, has identical FAT copies and backup boot sector, correct fs-info, an empty root apart from the label, mounts, and reports all clusters free; default options succeed for every size >= 42 sectors in the size set (thorough: all 2^32 sizes)",
+         "option values off the declared grid not covered",
+         "DESIGN.md §4 C06"),
+ "C07": ("input-enumerator", "exploration",
+         "bounded-exhaustive enumeration of boot-sector and fs-info contents (every value of 8/16-bit fields, boundary sets for 32-bit fields, all field pairs, geometry triples, truncated devices) on the real crate, independent coherence verdict and geometry parse as oracle",
+         "for every mutated image (5 base images, strict and non-strict mount): mount + fat_type + cluster_size + stats + first directory entry never panic, overflow or exceed the device-call budget; an accepted volume is coherent by the independent verdict and its width / cluster size / cluster count equal the independent parse",
+         "one-directional as stated (accepted => coherent); >2 simultaneous non-geometry field corruptions not covered",
+         "DESIGN.md §4 C07"),
+ "C08": ("explorer", "model_checking",
+         "product grid of builder-made foreign volumes as initial states, depth-1 exploration (1 read session + 10 single mutations) on the real crate, ground truth of the independent builder + byte-level diff oracle",
+         "for every volume of the grid (FAT width x sector/cluster size x 1-3 FAT copies x mirroring/active copy x reserved nibble x end-of-chain value x chain layout x dirty/clean; population using every slot-level freedom): everything the library lists and reads equals the builder's ground truth; each of 10 mutations leaves every byte outside the target's slots / free slots / its FAT entries and clusters / free clusters / status byte / fs-info unchanged, creates no new structural finding and keeps every other file intact",
+         "grid declared in the evidence; builder and decoder are anchored to each other on every image",
+         "DESIGN.md §4 C08"),
+ "C15": ("input-enumerator", "exploration",
+         "bounded-exhaustive enumeration of candidate names (every BMP scalar in 2-4 positions, astral samples, every byte length 0..300, dots/spaces family, all case-mapped scalars) through create_file / create_dir / rename on fresh volumes",
+         "each candidate is accepted exactly when it is 1..255 bytes of the documented character set (independent statement); rejection has the right error kind, no panic and no side effect on the image or the free count; an accepted name is listed unit for unit, found under its case variants (by full Unicode folding) and its alias, not found under near misses, and removable",
+         "folding = Rust's char::to_uppercase; '/' excluded (path separator)",
+         "DESIGN.md §4 C15"),
+ "C16": ("input-enumerator", "exploration",
+         "bounded-exhaustive enumeration of names over a small alphabet and of colliding directory populations (with removals) on the real crate; raw short-name bytes and long-name checksums examined by the independent decoder",
+         "every short name the library writes is legal 8.3 (upper case, no embedded/leading space, no dot), unique in its directory, and its checksum is in every long-name slot of its entry; creation terminates within a device-call budget however many entries collide on the 6-character and 2-character+hash forms",
+         "populations up to N=40 (quick) / 400 (thorough)",
+         "DESIGN.md §4 C16"),
+ "C17": ("input-enumerator", "exploration",
+         "bounded-exhaustive enumeration of directory slot contents (full product of order/checksum/attribute/text choices for runs of <=2 (thorough 3) long-name slots x 8 terminators, maximal runs, abandoned runs, every value of every byte) in two feature builds of the real crate, judged by the independent long-name state machine",
+         "iteration and every accessor terminate without panic; at most one entry per short slot; names never exceed 255 units; a broken run yields no long name, a valid one exactly its text (ambiguous encodings: either reading); dynamic-buffer and fixed-buffer builds return identical entries",
+         "slot soup beyond 3-slot runs / byte pairs not covered",
+         "DESIGN.md §4 C17"),
+ "C18": ("explorer", "model_checking",
+         "full-domain enumeration of dates/times through set_*/flush/re-list with an independent DOS packing + explicit-state exploration of the stamping rules under a counter clock",
+         "every date 1980-01-01..2107-12-31 accepted by Date::new and every time of day (quick: all seconds x 4 millisecond values + all fine-resolution values per hour; thorough: all 8.64M ten-millisecond steps) round-trips at 10 ms / 2 s / 1 day resolution and is packed as the specification says; in every explored history every file timestamp on disk is an instant issued by the clock during the operation the rules name (creation, write > 0 bytes, read with the option on) or the explicitly set instant; renames and operations on other entries change nothing",
+         "directory entries: only creation stamp checked strictly",
+         "DESIGN.md §4 C18"),
+ "C19": ("feature-driver", "model_checking",
+         "exhaustive enumeration of operation histories over a long-name alphabet on three feature builds of the real crate; per-history trace (results, listings after every step, image hash) compared pairwise",
+         "every history up to depth 3 (thorough 4) over 45 operations on names of 1..255 units: alloc and fixed-buffer builds give identical traces and images; the build without `unicode` differs only on histories that use two names differing solely by non-ASCII case",
+         "no_std builds without std not covered",
+         "DESIGN.md §4 C19"),
+ "C20": ("explorer", "model_checking",
+         "explicit-state BFS on sparse procedural FAT32 volumes (4 GiB .. 2 TiB, up to the FAT32 cluster limit) with next-free hints around the last cluster; reference model, independent decoder with 128-bit geometry, device-log monitor",
+         "on every volume shape / free set / hint: data is written to and read from the offsets the independent geometry assigns, extents() equal them, allocation reaches the last cluster and wraps around to the beginning, nothing is addressed beyond the declared end, all structural invariants hold on the touched region",
+         "volumes are sparse (only addressed offsets exist); whole-FAT scans avoided by keeping >= 6 clusters free",
+         "DESIGN.md §4 C20"),
 }
 
 NOT_YET = {}
@@ -79,6 +124,8 @@ def main():
         "add_only": True
       },
       "engines": [
+        {"name": "input-enumerator", "path": "mc/fatmc/src/{c06,c07,c15,c16,c17}.rs", "serves_properties": ["C06","C07","C15","C16","C17"], "kind_free_text": "bounded-exhaustive enumeration of an input domain (format options x sizes, boot-sector bytes, names, directory slot contents), every case executed on the real crate and judged by an independent parser / decoder"},
+        {"name": "feature-driver", "path": "mc/featdrv/main.rs", "serves_properties": ["C17","C19"], "kind_free_text": "one driver source compiled against three fatfs feature sets; exhaustive enumeration of cases / histories inside each build, traces compared by fatmc"},
         {"name": "fault-enumerator", "path": "mc/fatmc/src/c09.rs", "serves_properties": ["C09"], "kind_free_text": "per explored history: N re-executions of the real crate, each failing one device call"},
         {"name": "crash-enumerator", "path": "mc/fatmc/src/c14.rs", "serves_properties": ["C14"], "kind_free_text": "per explored history: crash images rebuilt from the device write log (prefixes, flush-epoch loss, subsets), remounted and decoded"},
         {"name": "explorer", "path": "mc/harness/src/explore.rs", "serves_properties": [i for i,c in CHECKS.items() if c[0]=="explorer"],
